@@ -520,3 +520,21 @@ impl Cartesian<'_> {
         }
     }
 }
+
+/// Verification hooks: thin public wrappers around the private planner stages
+/// (compiled only with the `verif_hooks` feature).
+#[cfg(feature = "verif_hooks")]
+pub mod verif_hooks {
+    use super::*;
+    /// (pose, flag bits) of every pose the planner will visit
+    pub fn with_intermediate_poses(c: &Cartesian, land: &Pose, steps: &Vec<Pose>, park: &Pose) -> Vec<(Pose, u32)> {
+        c.with_intermediate_poses(land, steps, park).iter().map(|p| (p.pose, p.flags.bits())).collect()
+    }
+    /// Ok(track) or Err(()) of the adaptive bisection between two poses
+    pub fn step_adaptive_linear_transition(c: &Cartesian, starting: &Joints, from: &Pose, to: &Pose, depth: usize)
+        -> Result<Vec<Joints>, ()> {
+        let from = AnnotatedPose { pose: *from, flags: PathFlags::LIN_INTERP };
+        let to = AnnotatedPose { pose: *to, flags: PathFlags::LIN_INTERP };
+        c.step_adaptive_linear_transition(starting, &from, &to, depth).map_err(|_| ())
+    }
+}
